@@ -101,13 +101,16 @@ where
             .await
             .map_err(|e| self.handle_frame_stream_error_on_request_stream(e))?
             .ok_or_else(|| {
-                //= https://www.rfc-editor.org/rfc/rfc9114#section-4.1
-                //# Receipt of an invalid sequence of frames MUST be treated as a
-                //# connection error of type H3_FRAME_UNEXPECTED.
-                self.handle_connection_error_on_stream(InternalConnectionError::new(
-                    Code::H3_FRAME_UNEXPECTED,
-                    "Stream finished without receiving response headers".to_string(),
-                ))
+                // The response stream ended before any frame of a response: no frame is out
+                // of sequence, the response is missing. This concerns this request only.
+
+                //= https://www.rfc-editor.org/rfc/rfc9114#section-4.1.2
+                //# Malformed requests or responses that are
+                //# detected MUST be treated as a stream error of type H3_MESSAGE_ERROR.
+                StreamError::StreamError {
+                    code: Code::H3_MESSAGE_ERROR,
+                    reason: "Stream finished without receiving response headers".to_string(),
+                }
             })?;
 
         //= https://www.rfc-editor.org/rfc/rfc9114#section-7.2.5
